@@ -303,6 +303,7 @@ func runC05(w *W) {
 		w.genFillBlock(fillStep(w), judge)
 		w.genBufferFill(judge)
 		w.genFillThenBlank(judge)
+		w.genBlankRunInString(judge)
 		w.genSpaceInDense([]int{1500, 9000}, judge)
 		w.genAlignedPartial(10, 110, 3, judge)
 		w.genAlignedPartial(130, 180, 2, judge)
